@@ -83,8 +83,11 @@ fn judge<F: Flav>(prop: &str, pre: &Obs, op: Op, res: &Res, eid: Option<Eid>, po
 /// oracle of `prop`.
 pub fn run_step<F: Flav>(prop: &str, n: usize, hist: &[Op], op: Op, prov: (u32, u32)) -> StepOut {
     let mut w = World::<F>::new(n);
+    // when the judged call goes through the long-lived original handles, so does the whole history
+    // (state a handle object accumulates over its calls must not matter)
+    let hp = if prov.0 % PROV_KINDS == 7 { (7, 7) } else { (0, 0) };
     for h in hist {
-        let _ = exec::<F>(&mut w, *h, (0, 0));
+        let _ = exec::<F>(&mut w, *h, hp);
     }
     let pre = match observe::<F>(&w) {
         Ok(o) => o,
@@ -331,7 +334,8 @@ pub fn run_random<F: Flav>(rep: &mut Report, cfg: &SeqCfg, rng: &mut Rng) {
         rep.count(&format!("profile.{}", ["balanced", "growth", "hub"][profile as usize]));
         for _ in 0..cfg.hist_len {
             let op = random_op(rng, n, hot, profile);
-            let prov = (rng.below(16) as u32, rng.below(7) as u32);
+            // every fourth history runs entirely through the long-lived original handles
+            let prov = if hi % 4 == 3 { (7, 7) } else { (rng.below(16) as u32, rng.below(8) as u32) };
             hist.push((op, prov));
         }
         rep.count("random_histories");
